@@ -134,11 +134,66 @@ let run_art ltp steps =
                            (String.concat "" (List.sort compare !letters)) (if !wild then ":wild" else ""));
   Buffer.contents out
 
+(* artn <step>,...   step: dt:addr:net:univ:lenfield:datahex | e:port:univ | d:port | m:port:ltp | s:subnet | n:net *)
+let run_artn steps =
+  let nd = ref init_node in
+  let gs = ref (List.map (fun _ -> []) init_node.n_ports) in
+  let now = ref t0 in
+  let out = Buffer.create 256 in
+  let txt_ok = ref true and wild = ref false in
+  let kinds = ref [] in
+  let note l = if not (List.mem l !kinds) then kinds := l :: !kinds in
+  List.iteri (fun i s ->
+    if i > 0 then Buffer.add_char out ';';
+    let f = colon s in
+    let op = match f with
+      | [dt; addr; net; u; lenf; data] ->
+        now := !now + ios dt;
+        NData { k_addr = nn addr; k_net = nn net; k_univ = nn u; k_lenf = nn lenf; k_data = bytes_of_hex data }
+      | ["e"; p; u] -> note "e"; NEnable (nat_of_int (ios p), nn u)
+      | ["d"; p] -> note "d"; NDisable (nat_of_int (ios p))
+      | ["m"; p; l] -> note "m"; NMode (nat_of_int (ios p), l <> "0")
+      | ["s"; v] -> note "s"; NSubnet (nn v)
+      | ["n"; v] -> note "n"; NNet (nn v)
+      | _ -> failwith "bad artn step" in
+    let before = !nd in
+    let (nd', cbs) = node_op (n_of_int !now) before op in
+    nd := nd';
+    (match op with
+     | NData k ->
+       if k.k_addr = N0 then wild := true;
+       (* text level, port by port: its own address and merge mode *)
+       let hit = ref 0 in
+       gs := List.map2 (fun (p, (p', cb)) g ->
+           if p.np_en then begin
+             let (g', o) = atext_step (cfg_of before.n_net p) (n_of_int !now) g k in
+             (match o with
+              | None -> if cb then txt_ok := false
+              | Some b -> incr hit; if not cb || not (list_eqb b p'.np_port.ap_buf) then txt_ok := false);
+             g' end
+           else begin (if cb then txt_ok := false); g end)
+         (List.combine before.n_ports (List.combine nd'.n_ports cbs)) !gs;
+       note (Printf.sprintf "h%d" !hit);
+       Buffer.add_string out (Printf.sprintf "o%d=%s" i
+         (String.concat "/" (List.map2 (fun p cb -> bool01 cb ^ "." ^ hex_of_bytes p.np_port.ap_buf) nd'.n_ports cbs)));
+       Buffer.add_string out (Printf.sprintf ";t%d=%s" i
+         (String.concat "/" (List.map (fun p -> bool01 p.np_port.ap_merging ^ "|" ^
+            String.concat "+" (List.map (fun a -> Printf.sprintf "%s.%s.%s" (ni a.a_addr) (ni a.a_ts) (hex_of_bytes a.a_buf))
+                                 p.np_port.ap_srcs)) nd'.n_ports)))
+     | _ ->
+       Buffer.add_string out (Printf.sprintf "o%d=c|%s|%s" i (ni nd'.n_net)
+         (String.concat "/" (List.map (fun p -> bool01 p.np_en ^ "." ^ ni p.np_addr) nd'.n_ports))))) steps;
+  Buffer.add_string out (Printf.sprintf ";txt=%s" (if !txt_ok || !wild then "1" else "0"));
+  Buffer.add_string out (Printf.sprintf ";class=artn:%s%s" (String.concat "" (List.sort compare !kinds))
+                           (if !wild then ":wild" else ""));
+  Buffer.contents out
+
 let handle_payload (p : string) : string =
   match split p with
   | ["sacn"; ip; univ; steps] -> run_sacn false ip univ (comma steps)
   | ["sacnw"; ip; univ; steps] -> run_sacn true ip univ (comma steps)
   | ["art"; ltp; steps] -> run_art ltp (comma steps)
+  | ["artn"; steps] -> run_artn (comma steps)
   | ["consts"] -> Printf.sprintf "expiry_us=%s;class=consts" (ni eXPIRY_INTERVAL_US)
   | _ -> "bad-op"
 let () = vh_run handle_payload
